@@ -149,3 +149,104 @@ pub async fn put_legacy_meta_object(disk: &InMemory, loc: &Path, payload: Bytes)
         .await
         .unwrap();
 }
+
+/// Writes an object exactly as an older `EncryptedStore` did, straight onto the
+/// disk: ciphertext at `data/<loc>`, no generation pointer.
+/// `sealed = false`: the pre-auth layout (empty chunk AAD, no authentication
+/// fields); `sealed = true`: the 0.9.x layout (bound chunk AAD, sealed metadata).
+/// The formats are public (they are what the store must keep reading); the
+/// harness re-implements them the way the crate's own tests do.
+pub async fn put_legacy_enc_object(disk: &InMemory, loc: &Path, plaintext: Bytes, chunk: u64, sealed: bool, nonce_seed: u64) {
+    use aes_gcm::aead::KeyInit;
+    use aes_gcm::{AeadInOut, Aes256Gcm, Key, Nonce};
+    use base64::{Engine, prelude::BASE64_URL_SAFE};
+    use cbor2::Value as CV;
+    use sha3::Digest;
+    let cipher = Aes256Gcm::new(&Key::<Aes256Gcm>::from(SECRET));
+    let chunk = chunk.max(1);
+    let mut base_nonce = [0u8; 12];
+    base_nonce[..8].copy_from_slice(&mix(nonce_seed).to_le_bytes());
+    base_nonce[8..].copy_from_slice(&(mix(nonce_seed ^ 0x5eed) as u32).to_le_bytes());
+    let chunk_aad = |idx: u64| -> Vec<u8> {
+        if !sealed {
+            return Vec::new();
+        }
+        let mut aad = Vec::with_capacity(52);
+        aad.extend_from_slice(b"anda_object_store.encrypted.chunk.v1");
+        aad.extend_from_slice(&chunk.to_le_bytes());
+        aad.extend_from_slice(&idx.to_le_bytes());
+        aad
+    };
+    let mut ciphertext = plaintext.to_vec();
+    let mut tags: Vec<[u8; 16]> = Vec::new();
+    for (idx, c) in ciphertext.chunks_mut(chunk as usize).enumerate() {
+        let mut nonce = base_nonce;
+        let ctr = u64::from_le_bytes(nonce[4..12].try_into().unwrap()).wrapping_add(idx as u64);
+        nonce[4..12].copy_from_slice(&ctr.to_le_bytes());
+        let tag = cipher.encrypt_inout_detached(&Nonce::from(nonce), &chunk_aad(idx as u64), c.into()).unwrap();
+        tags.push(tag.into());
+    }
+    let mut hasher = sha3::Sha3_256::new();
+    hasher.update(&ciphertext);
+    let hash: [u8; 32] = hasher.finalize().into();
+    let e_tag = BASE64_URL_SAFE.encode(hash);
+    let put = disk.put(&Path::from(format!("data/{loc}")), Bytes::from(ciphertext).into()).await.unwrap();
+    let size = plaintext.len() as u64;
+    let opt_text = |v: &Option<String>| match v {
+        Some(t) => CV::Text(t.clone()),
+        None => CV::Null,
+    };
+    let mut m: Vec<(CV, CV)> = vec![
+        (CV::Text("s".into()), CV::Integer(size.into())),
+        (CV::Text("e".into()), CV::Text(e_tag.clone())),
+        (CV::Text("o".into()), opt_text(&put.e_tag)),
+        (CV::Text("v".into()), opt_text(&put.version)),
+        (CV::Text("n".into()), CV::Bytes(base_nonce.to_vec())),
+        (CV::Text("t".into()), CV::Array(tags.iter().map(|t| CV::Bytes(t.to_vec())).collect())),
+        (CV::Text("c".into()), CV::Integer(chunk.into())),
+    ];
+    if sealed {
+        m.push((CV::Text("av".into()), CV::Integer(1u64.into())));
+        // metadata_auth_aad(location, meta) of a document without generation / commit time
+        fn push_bytes(out: &mut Vec<u8>, v: &[u8]) {
+            out.extend_from_slice(&(v.len() as u64).to_le_bytes());
+            out.extend_from_slice(v);
+        }
+        fn push_opt_str(out: &mut Vec<u8>, v: Option<&str>) {
+            match v {
+                Some(v) => {
+                    out.push(1);
+                    push_bytes(out, v.as_bytes());
+                }
+                None => out.push(0),
+            }
+        }
+        let mut aad = Vec::new();
+        aad.extend_from_slice(b"anda_object_store.encrypted.metadata.v1");
+        push_bytes(&mut aad, loc.to_string().as_bytes());
+        aad.extend_from_slice(&size.to_le_bytes());
+        push_opt_str(&mut aad, Some(&e_tag));
+        push_opt_str(&mut aad, put.e_tag.as_deref());
+        push_opt_str(&mut aad, put.version.as_deref());
+        push_bytes(&mut aad, &base_nonce);
+        aad.push(1);
+        aad.extend_from_slice(&chunk.to_le_bytes());
+        aad.push(1);
+        aad.push(1);
+        aad.extend_from_slice(&(tags.len() as u64).to_le_bytes());
+        for t in &tags {
+            push_bytes(&mut aad, t);
+        }
+        let mut an = [0u8; 12];
+        an[..8].copy_from_slice(&mix(nonce_seed ^ 0xA07).to_le_bytes());
+        an[8..].copy_from_slice(&(mix(nonce_seed ^ 0xA08) as u32).to_le_bytes());
+        let mut empty: [u8; 0] = [];
+        let at = cipher.encrypt_inout_detached(&Nonce::from(an), &aad, (&mut empty[..]).into()).unwrap();
+        let at: [u8; 16] = at.into();
+        m.push((CV::Text("an".into()), CV::Bytes(an.to_vec())));
+        m.push((CV::Text("at".into()), CV::Bytes(at.to_vec())));
+    }
+    let mut buf = Vec::new();
+    cbor2::to_writer(&CV::Map(m), &mut buf).unwrap();
+    disk.put(&Path::from(format!("meta/{loc}")), buf.into()).await.unwrap();
+}
